@@ -146,6 +146,10 @@ class Runner:
                 out.append({"ev": ev, "a": e["a"], "m": jmsg(e["m"])})
             elif ev == "submit":
                 out.append({"ev": ev, "a": e["a"], "m": jmsg(e["m"]), "r": e["r"]})
+            elif ev == "select":
+                out.append({"ev": ev, "a": e["a"], "offered": e["offered"]})
+            elif ev == "req_result":
+                out.append({"ev": ev, "k": e["k"], "r": e["r"], "hbh": e["hbh"], "e2e": e["e2e"]})
             elif ev == "thread_exit":
                 out.append({"ev": ev, "th": e["th"], "exc": e["exc"]})
         self._mark = len(s.obs)
@@ -182,6 +186,26 @@ class Runner:
             w.finish_connect(self._vc(act["c"]), act["err"])
         elif a == "tick":
             w.tick(1)
+        elif a == "send":
+            app = w.apps[act["app"]]
+            w.pick = act["pick"]
+            NotRoutable = w.ns.node.NotRoutable
+
+            def sender(k=act["k"], realm=act["realm"], timeout=act["timeout"]):
+                req = msgs.ccr(NODE_HOST, dest_realm=realm, hbh=0, e2e=0, app=0)
+                hbh = e2e = 0
+                try:
+                    ans = app.send_request(req, timeout=timeout)
+                    r, hbh, e2e = "answer", ans.header.hop_by_hop_identifier, ans.header.end_to_end_identifier
+                except NotRoutable:
+                    r = "NotRoutable"
+                except TimeoutError:
+                    r, hbh, e2e = "Timeout", req.header.hop_by_hop_identifier, req.header.end_to_end_identifier
+                except Exception as e:
+                    r = type(e).__name__
+                w.s.emit("req_result", k=k, r=r, hbh=hbh, e2e=e2e)
+            w.spawn(sender, name="sender-%d" % act["k"])
+            w.run()
         elif a == "submit":
             app = w.apps[act["app"]]
             req = act.get("_req")
@@ -350,6 +374,10 @@ class Gen:
             return M("APP", True, hbh, e2e, app=rng.choice(self.app_ids), oh=claimed if rng.random() < 0.95 else "",
                      realm=rng.choices(self.realms, weights=[8, 1, 1, 1, 1])[0], T=rng.random() < 0.3, miss=rng.random() < 0.1)
         if kind == "ans":
+            pend = [m for m in vc.tx if m["cmd"] == "APP" and m["req"]]
+            if pend and rng.random() < 0.85:
+                x = rng.choice(pend[-3:])
+                return M("APP", False, x["hbh"], x["e2e"], app=x["app"], oh=claimed if rng.random() < 0.9 else "", rc=2001)
             return M("APP", False, hbh, e2e, app=rng.choice(self.app_ids), oh=claimed if rng.random() < 0.8 else "", rc=2001)
         if kind == "ureq":
             return M("APP", True, hbh, e2e, app=rng.choice(self.app_ids), oh=claimed if rng.random() < 0.8 else "",
@@ -382,6 +410,8 @@ class Gen:
             choices.append(("resubmit", 2))
         if any(p["persistent"] for p in self.r.full_cfg["peers"]):
             choices.append(("plan", 1))
+        if self.focus.get("send") and self.r.full_cfg["apps"]:
+            choices.append(("send", self.focus["send"]))
         aw = self.focus.get("act", {})
         choices = [(nm, aw.get(nm, wt)) for nm, wt in choices if aw.get(nm, wt) > 0]
         names, weights = zip(*choices)
@@ -396,6 +426,11 @@ class Gen:
             return {"a": a, "c": rng.choice(usable).c}
         if a == "connect_result":
             return {"a": a, "c": rng.choice(connecting).c, "err": rng.choice([0, 0, 0, 111])}
+        if a == "send":
+            self.nsend = getattr(self, "nsend", 0) + 1
+            app = rng.choice(self.r.full_cfg["apps"])
+            return {"a": "send", "k": self.nsend, "app": app["name"], "realm": rng.choices(["r1", "r2", "r3", "r9"], weights=[8, 2, 1, 1])[0],
+                    "timeout": rng.choice([1, 2, 3, 30]), "pick": rng.choice(["first", "last"])}
         if a == "resubmit":
             name, req = rng.choice(self.r.answered)
             from .world import abs_from_msg
